@@ -19,7 +19,25 @@ end < -1 the statement does not say which convention holds, so the window [start
 accepted as well, as long as the returned values are those of the window actually returned; what
 is not accepted is an exception or a result that belongs to no window.
 Attributions are only checked for single-tensor outputs (documented restriction).
+
+Input classes beyond "fresh contiguous one-hot int8 X, 1-3 examples" (added by the audit):
+  * unknown positions: a sequence entry -1 is an all-zero column of X.  "position p set to character c"
+    is then the one-hot column c, and "masked by the observed character" leaves no entry (attribution 0
+    at that position unless `hypothetical`);
+  * many examples (4-40, in particular > 32 = predict's default batch size, used for y0) with short
+    windows and batch sizes that are multiples of A*W (several examples fit in one batch);
+  * X as a non-contiguous view (permuted / slice of a larger tensor filled with ones / strided), extra
+    arguments as non-contiguous views, extra arguments given as a list, X of dtype uint8 / int32 / int64 /
+    bool / float16, device given as torch.device, verbose=True (progress bar sent to a string buffer);
+  * raw_outputs=True together with `target` / `hypothetical` (both must be ignored: the statement fixes
+    what y0 and y_hat are "with raw outputs");
+  * outputs without any trailing dimension (shape (N,), raw only) and outputs carrying a constant offset
+    2**30+1 (not representable in float32: a silent down-cast of the stacked predictions is visible);
+  * target slices with open (None) and negative bounds.
+The references are computed from copies of X / args taken BEFORE the call.
 """
+import contextlib
+import io
 import itertools
 import random
 from fractions import Fraction
@@ -33,9 +51,16 @@ SCOPE = {
              '(raw; attribution with target/hypothetical rotated) plus every negative-end spelling (end=-1..-L, default call) for lengths 1-5; '
              '600 seeded random cases: lengths 1-30, 1-3 examples, batch sizes in 1..A*W+1 (edges 1, A, W, A*W-1, A*W, A*W+1), '
              'recording and integer relu models, tensor/tuple outputs with 0-2 trailing dims, 0-2 per-example args of rank 1-3, '
-             'int/negative int/slice/stepped slice/None targets, raw / attribution / hypothetical, int8/float32/float64 X',
+             'int/negative int/slice/stepped slice/None targets, raw / attribution / hypothetical, int8/float32/float64 X; '
+             'each random case additionally draws independently: unknown (all-zero) positions, identical sequences with different args, '
+             'X as permuted/sliced/strided view, strided args, args as list, X dtype uint8/int32/int64/bool/float16, torch.device, verbose, '
+             'raw with target/hypothetical passed, 1-D outputs (raw), output offset 2**30+1, open/negative slice bounds, batch sizes '
+             '2*A*W, 2*A*W+1, 3*A*W, N*A*W, 10**6; 200 such cases with lengths 1-6 run first; 70 cases with 4-40 examples '
+             '(31-34 emphasised), lengths 1-4, windows of width 1-3; the rotations of the exhaustive parts are drawn independently '
+             '(examples, batch size, model, args, mode, target no longer correlated)',
     'thorough': 'alphabets 2-5; exhaustive: lengths 1-9 x every window x 3 output kinds x {raw, attr, hyp} plus every negative-end '
-                'spelling for lengths 1-8; 20000 seeded random cases as in quick (lengths 1-30)',
+                'spelling for lengths 1-8; 20000 seeded random cases as in quick (lengths 1-30) with the same independently drawn options; '
+                '3000 short-option cases first; 1500 cases with 4-40 examples',
 }
 
 F64 = torch.float64
@@ -60,9 +85,11 @@ class RecModel(torch.nn.Module):
     w(t) = 1 + t otherwise (attribution modes: keeps magnitudes ~1e5 so that float64 rounding of the
     function under test stays far below the smallest possible mix-up)."""
 
-    def __init__(self, A, shapes, as_tuple, exact=True):
+    def __init__(self, A, shapes, as_tuple, exact=True, offset=0):
         super().__init__()
         self.A, self.shapes, self.as_tuple, self.exact = A, [tuple(s) for s in shapes], as_tuple, exact
+        self.offset = float(offset)          # constant added to every output (2**30+1: lost by a float32 down-cast)
+        self._M = {}
 
     def forward(self, X, *args):
         B = X.shape[0]
@@ -78,14 +105,17 @@ class RecModel(torch.nn.Module):
         outs = []
         for k, shp in enumerate(self.shapes):
             P = _prod(shp)
-            M = torch.zeros(S, P, dtype=F64)
-            if P >= S:
-                for j in range(P):
-                    M[j % S, j] = 1 + j // S
-            else:
-                for s_ in range(S):
-                    M[s_, s_ % P] = float(7 ** (s_ // P)) if self.exact else float(1 + s_ // P)
-            o = packed @ M + 7.0 * torch.arange(P, dtype=F64) + 3.0 * k
+            M = self._M.get((S, k))
+            if M is None:
+                M = torch.zeros(S, P, dtype=F64)
+                if P >= S:
+                    for j in range(P):
+                        M[j % S, j] = 1 + j // S
+                else:
+                    for s_ in range(S):
+                        M[s_, s_ % P] = float(7 ** (s_ // P)) if self.exact else float(1 + s_ // P)
+                self._M[(S, k)] = M
+            o = packed @ M + 7.0 * torch.arange(P, dtype=F64) + 3.0 * k + self.offset
             outs.append(o.reshape(B, *shp))
         return tuple(outs) if self.as_tuple else outs[0]
 
@@ -93,8 +123,9 @@ class RecModel(torch.nn.Module):
 class LinModel(torch.nn.Module):
     """integer-weight relu network with float64 parameters (row-wise, exact in float64)"""
 
-    def __init__(self, A, L, shapes, as_tuple, n_arg_feats, seed):
+    def __init__(self, A, L, shapes, as_tuple, n_arg_feats, seed, offset=0):
         super().__init__()
+        self.offset = float(offset)
         g = random.Random(seed)
         H = 6
         self.shapes, self.as_tuple = [tuple(s) for s in shapes], as_tuple
@@ -115,29 +146,52 @@ class LinModel(torch.nn.Module):
             a = torch.cat([x.reshape(B, -1).to(F64) for x in args], dim=1)
             h = h + a @ self.Wa.T
         h = torch.relu(h)
-        outs = [(h @ w.T).reshape(B, *s) for w, s in zip(self.W2, self.shapes)]
+        outs = [(h @ w.T + self.offset).reshape(B, *s) for w, s in zip(self.W2, self.shapes)]
         return tuple(outs) if self.as_tuple else outs[0]
+
+
+def _x_storage(layout, N, A, L, dt):
+    """a zero (N, A, L) tensor of the requested dtype whose storage is laid out as `layout`; for the views the
+    surrounding storage is filled with ones, so that reading outside the view is visible"""
+    if layout == 'perm':
+        return torch.zeros(N, L, A, dtype=dt).permute(0, 2, 1)
+    if layout == 'slice':
+        big = torch.ones(N + 2, A + 1, L + 3, dtype=dt)
+        X = big[1:N + 1, :A, 2:L + 2]
+        X[...] = 0
+        return X
+    if layout == 'step':
+        big = torch.ones(N, A, 2 * L, dtype=dt)
+        X = big[:, :, ::2]
+        X[...] = 0
+        return X
+    return torch.zeros(N, A, L, dtype=dt)
 
 
 def build(case):
     A, seqs = case['A'], case['seqs']
     N, L = len(seqs), len(seqs[0])
-    X = torch.zeros(N, A, L, dtype=getattr(torch, case.get('xdtype', 'int8')))
+    X = _x_storage(case.get('xlayout', 'contig'), N, A, L, getattr(torch, case.get('xdtype', 'int8')))
     for n, s in enumerate(seqs):
         for p, c in enumerate(s):
-            X[n, c, p] = 1
+            if c >= 0:                       # -1: unknown character, all-zero column
+                X[n, c, p] = 1
     g = random.Random(case['seed'])
     args = []
     for shp, dt in case.get('args', []):
         numel = N * _prod(shp)
         t = torch.tensor([g.randint(0, 9) for _ in range(numel)], dtype=getattr(torch, dt)).reshape(N, *shp)
+        if case.get('arglayout') == 'strided':
+            big = torch.full((N, *shp, 2), 7, dtype=t.dtype)
+            big[..., 0] = t
+            t = big[..., 0]
         args.append(t)
     n_arg_feats = sum(_prod(shp) for shp, _ in case.get('args', []))
     m = case['model']
     if m['type'] == 'rec':
-        model = RecModel(A, m['shapes'], m['tuple'], exact=(case['mode'] == 'raw'))
+        model = RecModel(A, m['shapes'], m['tuple'], exact=(case['mode'] == 'raw'), offset=m.get('offset', 0))
     else:
-        model = LinModel(A, L, m['shapes'], m['tuple'], n_arg_feats, case['seed'])
+        model = LinModel(A, L, m['shapes'], m['tuple'], n_arg_feats, case['seed'], offset=m.get('offset', 0))
     return X, tuple(args), model
 
 
@@ -172,8 +226,20 @@ def check_ism(case):
     if case.get('window') != 'default':
         kw['start'], kw['end'] = case['start'], case['end']
         start = case['start']
+    if case.get('device_obj'):
+        kw['device'] = torch.device('cpu')
+    if case.get('verbose'):
+        kw['verbose'] = True
+    # references are computed from copies taken before the call
+    Xin, argsin = X, args
+    X = Xin.clone(memory_format=torch.contiguous_format)
+    args = tuple(a.clone(memory_format=torch.contiguous_format) for a in argsin)
     if args:
-        kw['args'] = args
+        kw['args'] = list(argsin) if case.get('args_list') else argsin
+    if mode == 'raw' and case.get('raw_extra'):
+        # must be ignored with raw outputs
+        kw['target'] = _target({'target': case['raw_extra'].get('target')})
+        kw['hypothetical'] = bool(case['raw_extra'].get('hyp'))
     if mode != 'raw':
         kw['target'] = _target(case)
         kw['hypothetical'] = (mode == 'hyp')
@@ -183,7 +249,8 @@ def check_ism(case):
         kw['raw_outputs'] = True
     ends = _windows_allowed(L, start, kw.get('end'))
     try:
-        res = saturation_mutagenesis(model, X, **kw)
+        with contextlib.redirect_stderr(io.StringIO()):
+            res = saturation_mutagenesis(model, Xin, **kw)
     except Exception as e:
         return ['saturation_mutagenesis raised an exception on a valid request (window inside the sequence, batch size >= 1): %s; start=%s end=%s L=%d %s outputs: %s'
                 % (type(e).__name__, kw.get('start', 'default'), kw.get('end', 'default'), L, 'tuple' if as_tuple else 'tensor', str(e)[:90])]
@@ -336,19 +403,117 @@ def _rand_target(g, T):
         return ['int', g.randrange(T)]
     if r < 0.58:
         return ['int', -g.randint(1, T)]
+    if r < 0.72:
+        # open / negative bounds (always a non-empty selection)
+        return g.choice([['slice', None, None, None], ['slice', None, g.randint(1, T), None], ['slice', g.randrange(T), None, None],
+                         ['slice', -g.randint(1, T), None, None], ['slice', None, -g.randint(1, T - 1) if T > 1 else None, None],
+                         ['slice', None, None, 2], ['slice', -T, T, g.choice([None, 2])]])
     a = g.randrange(T)
     b = g.randint(a + 1, T)
     step = g.choice([None, None, 1, 2])
     return ['slice', a, b, step]
 
 
+_XDT_OLD = ['int8', 'int8', 'float32', 'float64']
+_XDT_NEW = ['uint8', 'int32', 'int64', 'bool', 'float16']
+_MANY_N = [4, 5, 7, 8, 9, 16, 31, 32, 33, 33, 34, 40]
+
+
+def _rand_case(g, flavour='long'):
+    """one seeded random case.  flavour: 'long' lengths 1-30 and 1-3 examples; 'short' lengths 1-6, 1-4 examples,
+    every option drawn with a higher probability; 'many' 4-40 examples, lengths 1-4, windows of width <= 3"""
+    hi = flavour != 'long'                   # options more likely
+    A = g.randint(2, 5)
+    if flavour == 'many':
+        L, N = g.randint(1, 4), g.choice(_MANY_N)
+    elif flavour == 'short':
+        L, N = g.randint(1, 6), g.randint(1, 4)
+    else:
+        L = g.choice([1, 2, 3, 30]) if g.random() < 0.15 else g.randint(1, 30)
+        N = g.randint(1, 3)
+    unknown = g.random() < (0.4 if hi else 0.25)
+    seqs = [[(-1 if unknown and g.random() < 0.3 else g.randrange(A)) for _ in range(L)] for _ in range(N)]
+    if N > 1 and g.random() < 0.12:
+        seqs = [list(seqs[0]) for _ in range(N)]          # identical sequences: only the args tell the examples apart
+    case = {'kind': 'ism', 'A': A, 'seqs': seqs, 'seed': g.randrange(10 ** 6),
+            'xdtype': g.choice(_XDT_NEW) if g.random() < (0.4 if hi else 0.25) else g.choice(_XDT_OLD)}
+    r = g.random()
+    if r < 0.12:
+        case['window'] = 'default'
+        start, end = 0, L
+    elif r < 0.3:
+        start = g.randrange(L)
+        e_abs = g.randint(start + 1, L)
+        case['start'], case['end'] = start, e_abs - L - 1
+        end = e_abs
+    else:
+        start = g.randrange(L)
+        end = g.randint(start + 1, L if flavour != 'many' else min(L, start + 3))
+        if g.random() < 0.2 and flavour != 'many':
+            end = L
+        case['start'], case['end'] = start, end
+    W = end - start
+    bss = [1, 2, A, W, A * W - 1, A * W, A * W + 1, g.randint(1, A * L + 1), g.randint(1, A * L + 1),
+           2 * A * W, 2 * A * W + 1, 3 * A * W, N * A * W, 10 ** 6]
+    case['batch_size'] = max(1, g.choice(bss[9:] if (flavour == 'many' and g.random() < 0.5) else bss))
+    as_tuple = g.random() < 0.35
+    n_out = g.randint(1, 3) if as_tuple else 1
+    shapes = []
+    for _ in range(n_out):
+        T = g.randint(1, 4)
+        shapes.append([T] + [g.randint(1, 3) for _ in range(g.choice([0, 0, 1, 1, 2]))])
+    case['model'] = {'type': g.choice(['rec', 'rec', 'lin']), 'shapes': shapes, 'tuple': as_tuple}
+    if g.random() < 0.3:
+        case['model']['offset'] = 2 ** 30 + 1
+    p_args = [0, 0, 1, 2] if flavour == 'long' else [0, 1, 1, 2]
+    case['args'] = [[[g.randint(1, 3) for _ in range(g.randint(0, 2))], g.choice(['float64', 'int64'])] for _ in range(g.choice(p_args))]
+    if case['args']:
+        if g.random() < 0.3:
+            case['arglayout'] = 'strided'
+        if g.random() < 0.3:
+            case['args_list'] = True
+    if g.random() < 0.35:
+        case['xlayout'] = g.choice(['perm', 'slice', 'step'])
+    if g.random() < 0.25:
+        case['device_obj'] = True
+    if g.random() < 0.04:
+        case['verbose'] = True
+    if as_tuple:
+        case['mode'] = 'raw'
+    else:
+        case['mode'] = g.choice(['raw', 'attr', 'hyp'])
+        if case['mode'] != 'raw':
+            case['target'] = _rand_target(g, shapes[0][0])
+            case['explicit_raw_false'] = g.random() < 0.3
+    if case['mode'] == 'raw':
+        if g.random() < 0.3:
+            case['raw_extra'] = {'target': _rand_target(g, min(sh[0] for sh in shapes)), 'hyp': g.random() < 0.5}
+        elif g.random() < 0.12:
+            # outputs without any trailing dimension: (N,) per output
+            k = g.randrange(len(shapes))
+            case['model']['shapes'][k] = []
+    return case
+
+
 def run(rep):
+    torch.set_num_threads(1)
     thorough = rep.tier == 'thorough'
     g = rep.rng
     maxL_ex = 9 if thorough else 6
     maxL_neg = 8 if thorough else 5
+    # -- cheap cases of the classes added by the audit first: short sequences with every option, then many examples
+    for k in range(3000 if thorough else 200):
+        if rep.out_of_time():
+            rep.note('time budget reached after %d short-option cases' % k)
+            return
+        _do(rep, _rand_case(g, 'short'), ('opt', k), 'short-options', sample=(k < 1))
+    for k in range(1500 if thorough else 70):
+        if rep.out_of_time():
+            rep.note('time budget reached after %d many-example cases' % k)
+            return
+        _do(rep, _rand_case(g, 'many'), ('many', k), 'many-examples', sample=(k < 1))
     rot = 0
-    # -- exhaustive small scope: every window, every output kind
+    # -- exhaustive small scope: every window, every output kind (the other coordinates drawn independently)
     for A in range(2, 6):
         for L in range(1, maxL_ex + 1):
             for start in range(0, L):
@@ -357,21 +522,22 @@ def run(rep):
                         if rep.out_of_time():
                             rep.note('time budget reached inside the exhaustive window part')
                             return
-                        N = 1 + (rot % 2)
+                        N = g.randint(1, 2)
                         seqs = [[g.randrange(A) for _ in range(L)] for _ in range(N)]
                         W = end - start
-                        bs = [1, A, W, A * W - 1, A * W, A * W + 1, 32][rot % 7]
+                        bs = g.choice([1, A, W, A * W - 1, A * W, A * W + 1, 32])
                         bs = max(1, bs)
                         base = {'kind': 'ism', 'A': A, 'seqs': seqs, 'start': start, 'end': end, 'batch_size': bs,
-                                'model': dict(om, type='rec' if rot % 3 else 'lin'), 'args': [[[2], 'float64']] if rot % 4 == 1 else [],
+                                'model': dict(om, type='rec' if g.random() < 2 / 3 else 'lin'),
+                                'args': [[[2], 'float64']] if g.random() < 0.25 else [],
                                 'seed': g.randrange(10 ** 6), 'xdtype': 'int8'}
                         modes = ['raw']
                         if not om['tuple']:
-                            modes = ['raw', 'attr', 'hyp'] if thorough else ['raw', ('attr', 'hyp')[rot % 2]]
+                            modes = ['raw', 'attr', 'hyp'] if thorough else ['raw', g.choice(['attr', 'hyp'])]
                         for mode in modes:
                             case = dict(base, mode=mode)
                             if mode != 'raw':
-                                case['target'] = [None, ['int', rot % om['shapes'][0][0]], ['slice', 0, 2, None]][rot % 3]
+                                case['target'] = g.choice([None, ['int', g.randrange(om['shapes'][0][0])], ['slice', 0, 2, None]])
                             _do(rep, case, ('ex', A, L, start, end, ok, mode), 'exhaustive-windows', sample=(rot == 5))
                         rot += 1
     rep.mark_exhaustive('every window 0<=start<end<=L for lengths 1-%d, alphabets 2-5, three output kinds' % maxL_ex)
@@ -384,11 +550,11 @@ def run(rep):
                     if rep.out_of_time():
                         rep.note('time budget reached inside the negative-end part')
                         return
-                    N = 1 + (rot % 2)
+                    N = g.randint(1, 2)
                     seqs = [[g.randrange(A) for _ in range(L)] for _ in range(N)]
-                    case = {'kind': 'ism', 'A': A, 'seqs': seqs, 'batch_size': [1, 3, 32][rot % 3],
+                    case = {'kind': 'ism', 'A': A, 'seqs': seqs, 'batch_size': g.choice([1, 3, 32]),
                             'model': dict(om, type='rec'), 'args': [], 'seed': g.randrange(10 ** 6), 'xdtype': 'int8',
-                            'mode': 'raw' if (om['tuple'] or rot % 2) else ('attr', 'hyp')[(rot // 2) % 2], 'target': None}
+                            'mode': 'raw' if (om['tuple'] or g.random() < 0.5) else g.choice(['attr', 'hyp']), 'target': None}
                     if wk == 'default':
                         case['window'] = 'default'
                     else:
@@ -402,41 +568,4 @@ def run(rep):
         if rep.out_of_time():
             rep.note('time budget reached after %d random cases' % k)
             break
-        A = g.randint(2, 5)
-        L = g.choice([1, 2, 3, 30]) if g.random() < 0.15 else g.randint(1, 30)
-        N = g.randint(1, 3)
-        seqs = [[g.randrange(A) for _ in range(L)] for _ in range(N)]
-        r = g.random()
-        case = {'kind': 'ism', 'A': A, 'seqs': seqs, 'seed': g.randrange(10 ** 6), 'xdtype': g.choice(['int8', 'int8', 'float32', 'float64'])}
-        if r < 0.12:
-            case['window'] = 'default'
-            start, end = 0, L
-        elif r < 0.3:
-            start = g.randrange(L)
-            e_abs = g.randint(start + 1, L)
-            case['start'], case['end'] = start, e_abs - L - 1
-            end = e_abs
-        else:
-            start = g.randrange(L)
-            end = g.randint(start + 1, L)
-            if g.random() < 0.2:
-                end = L
-            case['start'], case['end'] = start, end
-        W = end - start
-        case['batch_size'] = max(1, g.choice([1, 2, A, W, A * W - 1, A * W, A * W + 1, g.randint(1, A * L + 1), g.randint(1, A * L + 1)]))
-        as_tuple = g.random() < 0.35
-        n_out = g.randint(1, 3) if as_tuple else 1
-        shapes = []
-        for _ in range(n_out):
-            T = g.randint(1, 4)
-            shapes.append([T] + [g.randint(1, 3) for _ in range(g.choice([0, 0, 1, 1, 2]))])
-        case['model'] = {'type': g.choice(['rec', 'rec', 'lin']), 'shapes': shapes, 'tuple': as_tuple}
-        case['args'] = [[[g.randint(1, 3) for _ in range(g.randint(0, 2))], g.choice(['float64', 'int64'])] for _ in range(g.choice([0, 0, 1, 2]))]
-        if as_tuple:
-            case['mode'] = 'raw'
-        else:
-            case['mode'] = g.choice(['raw', 'attr', 'hyp'])
-            if case['mode'] != 'raw':
-                case['target'] = _rand_target(g, shapes[0][0])
-                case['explicit_raw_false'] = g.random() < 0.3
-        _do(rep, case, ('rnd', k), 'random', sample=(k < 2))
+        _do(rep, _rand_case(g, 'long'), ('rnd', k), 'random', sample=(k < 2))
